@@ -121,8 +121,10 @@ class CompleteSpec(DepOrderSpec):
         spec = self
         E = lambda variant, fields: Agg('enum', 'def::module::Expr', variant, fields)
         # 0: n0, 1: n1, 2: n2, 3: n0(n1), 4: literal
-        self.exprs[3:] = [E('Call', [scopes.idx(0), VecV([tup(none(), scopes.idx(1))])]), E('Literal', [IntV(0, 16, 0)])]
-        self.isfn = [z3.Bool('resolves_to_function_%d' % i) for i in range(3)]
+        # 5: n0 AGAIN, in another expression scope (the first mention may be a shadowing local, the second the top-level function)
+        self.exprs[3:] = [E('Call', [scopes.idx(0), VecV([tup(none(), scopes.idx(1))])]), E('Literal', [IntV(0, 16, 0)]), E('Variable', [scopes.smol(StrV('n0'))])]
+        self.name_of = {0: 'n0', 1: 'n1', 2: 'n2', 5: 'n0'}
+        self.isfn = {i: z3.Bool('resolves_to_function_%d' % i) for i in self.name_of}
         self.choice = {}
 
         def resolver_for_expr(it_, c, a):
@@ -134,8 +136,8 @@ class CompleteSpec(DepOrderSpec):
             r = models.deref(a[0]); nm = models.deref(a[1])
             nm = nm.fields[0].s if isinstance(nm, Agg) else nm.s
             tag = r.fields[0].tag if isinstance(r, Agg) and isinstance(r.fields[0], Opaque) else None
-            i = int(nm[1:])
-            if not (isinstance(tag, tuple) and tag[1] == i):
+            i = tag[1] if isinstance(tag, tuple) else None
+            if spec.name_of.get(i) != nm:
                 spec.foreign_scope = True          # the identifier is looked up in the scope of another expression: answered as a local
                 return some(Agg('enum', 'ResolveResult', 'Local', [LazyV('local')]))
             if i not in spec.choice:
@@ -164,9 +166,9 @@ class CompleteSpec(DepOrderSpec):
                 return {'cls': 'violation', 'ok': False, 'why': ['engine: symbolic edge'], 'cex': {}}
             got.add((a.v, b2.v))
         bad = []
-        role = {0: 'the callee n0 of `n0(n1)`', 1: 'the argument n1 of `n0(n1)`', 2: 'the plain reference n2'}
+        role = {0: 'the callee n0 of `n0(n1)`', 1: 'the argument n1 of `n0(n1)`', 2: 'the plain reference n2', 5: 'the second mention of the name n0 (in another scope than the first)'}
         # identifiers the code never asked about: the solver may still make them functions
-        for i in range(3):
+        for i in sorted(self.name_of):
             if i in self.choice:
                 if self.choice[i] and (5, 100 + i) not in got:
                     bad.append('C09: %s resolves to a top-level function but the call graph has no edge to it' % role[i])
@@ -181,7 +183,7 @@ class CompleteSpec(DepOrderSpec):
             bad.append('C09: the declared function has no self edge')
         rec = {'cls': 'edges:%d' % (len(got) - 1), 'ok': True, 'sample': {'functions_among_identifiers': sorted(i for i, v in self.choice.items() if v), 'edges': sorted(got)}}
         if bad:
-            rec.update({'cls': 'violation', 'ok': False, 'why': sorted(set(bad))[:4], 'cex': {'identifiers': 3, 'resolve_to_function': sorted(i for i, v in self.choice.items() if v)}})
+            rec.update({'cls': 'violation', 'ok': False, 'why': sorted(set(bad))[:4], 'cex': {'identifiers': 4, 'resolve_to_function': sorted(i for i, v in self.choice.items() if v)}})
         return rec
 
 
